@@ -341,9 +341,12 @@ impl RoutePattern {
             } = right;
 
             for (left, right) in segs_left.iter().zip(segs_right.iter()) {
+                // Literal segments are matched against routes by their percent-decoded form, so
+                // they must be compared in that form here.
                 if !left.parameter
                     && !right.parameter
-                    && left.segment_str(pat_left.as_str()) != right.segment_str(pat_right.as_str())
+                    && !percent_decode_str(left.segment_str(pat_left.as_str()))
+                        .eq(percent_decode_str(right.segment_str(pat_right.as_str())))
                 {
                     return false;
                 }
